@@ -285,6 +285,7 @@ func (vm *Vm) runCatch(ctx context.Context, b []byte) ([]byte, error) {
 			return b, err
 		}
 		b = bh
+		vm.Reset()
 	}
 	return b, nil
 }
